@@ -76,4 +76,75 @@ theorem work_share_zero {t m : Nat} (h : t = 0 ∨ m = 0) : work_share t m = non
   · rw [csub_of_le (by omega)]
     simp [cdiv]
 
+/-! ## `SubGrid::split_at` -/
+
+open Coupe.GridRcb in
+theorem split_at_eq (D : Nat) (sg : SubGrid) (c pos : Nat) (hc : c < D) :
+    split_at D sg.size sg.offset c pos
+      = (sg.splitAt c pos).map (fun p => ((p.1.size, p.1.offset), (p.2.size, p.2.offset))) := by
+  have hupd : ∀ f i v, Coupe.Gen.IntFns.upd f i v = Coupe.GridRcb.upd f i v := fun _ _ _ => rfl
+  simp only [split_at, SubGrid.splitAt, cidx_of_lt hc, Option.bind_eq_bind, Option.bind_some]
+  by_cases h1 : pos < sg.offset c
+  · rw [csub_of_lt h1, if_pos h1]; rfl
+  · rw [csub_of_le (by omega), if_neg h1]
+    simp only [Option.bind_some]
+    by_cases h2 : sg.size c < pos - sg.offset c
+    · rw [csub_of_lt h2, if_pos h2]; rfl
+    · rw [csub_of_le (by omega), if_neg h2]
+      simp [hupd]
+
+theorem split_at_oob (D : Nat) (size offset : Nat → Nat) (c pos : Nat) (hc : D ≤ c) :
+    split_at D size offset c pos = none := by
+  simp [split_at, cidx_of_ge hc]
+
+/-! ## `IterationResult::part_of`, one turn of the loop -/
+
+open Coupe.GridRcb in
+theorem part_of_step_eq (D : Nat) (pos : Nat → Nat) (c position id : Nat) (l r it : Tree)
+    (hc : c < D) :
+    (part_of_step D pos c position id l r it).map (fun s => partOfAux D s.2.1 pos s.2.2 s.1)
+      = some (partOfAux D (.split position l r) pos c id) := by
+  have hD : 0 < D := by omega
+  simp only [part_of_step, cidx_of_lt hc, cmod_of_pos hD, Option.bind_eq_bind, Option.bind_some]
+  by_cases h : pos c < position
+  · simp [partOfAux, h]
+  · simp [partOfAux, h]
+
+theorem part_of_step_oob {τ : Type} (D : Nat) (pos : Nat → Nat) (c position id : Nat) (l r it : τ)
+    (hc : D ≤ c) : part_of_step D pos c position id l r it = none := by
+  simp [part_of_step, cidx_of_ge hc]
+
+/-! ## `weighted_median`: chunk size -/
+
+theorem median_chunk_size_eq (T mn mx : Nat) (h : mn ≤ mx) :
+    median_chunk_size mn mx T = some (max 2 T, max 1 ((mx - mn) / max 2 T)) := by
+  have : 0 < max 2 T := by omega
+  simp only [median_chunk_size, csub_of_le h, cdiv_of_pos this, Option.bind_eq_bind, Option.bind_some]
+  rfl
+
+theorem median_chunk_size_underflow (T mn mx : Nat) (h : mx < mn) : median_chunk_size mn mx T = none := by
+  simp [median_chunk_size, csub_of_lt h]
+
+open Coupe.GridRcb in
+theorem median_round_eq (T : Nat) (ws : List Int) (minPw maxPw : Int) (mn mx : Nat) (left : Int)
+    (h1 : mn ≤ mx) (h2 : mx ≤ ws.length) :
+    (median_chunk_size mn mx T).map (fun cs =>
+        let slice := (ws.drop mn).take (mx - mn)
+        forLoop minPw maxPw (prefixPairs cs.2 mn left (chunkSums cs.2 slice.length slice) 0 0) mn mx left)
+      = (round {} T ws minPw maxPw mn mx left).toOption := by
+  rw [median_chunk_size_eq T mn mx h1]
+  have h3 : ¬ (mx < mn ∨ ws.length < mx) := by omega
+  have h4 : max 2 T ≠ 0 := by omega
+  simp only [round, if_neg h3, if_neg h4, Option.map_some, Except.toOption]
+
+/-! ## `z_curve_partition`: chunk arithmetic -/
+
+theorem z_curve_chunks_eq (n k : Nat) (hk : 0 < k) :
+    z_curve_chunks n k = some (n / k, n % k, (n / k + 1) * (n % k), n / k + 1, max (n / k) 1) := by
+  simp only [z_curve_chunks, cdiv_of_pos hk, cmod_of_pos hk, Option.bind_eq_bind, Option.bind_some]
+  rfl
+
+theorem z_curve_chunks_zero (n : Nat) : z_curve_chunks n 0 = none := by
+  simp [z_curve_chunks, cdiv_zero]
+
 end Coupe.GenTie
